@@ -226,6 +226,8 @@ Case generate(vf::Src& src, const std::string& mode)
     int n = src.irange(1, 30);
     for (int i = 0; i < n; ++i)
     {
+        if (src.skip())
+            continue; // lets the shrinker drop operations
         Op op;
         op.code = static_cast<int>(src.weighted({ 25, 25, 15, 8, 12, 15 }));
         op.a = src.irange(0, NSLOT - 1);
